@@ -63,6 +63,45 @@ def core_with_contracts(shapes, volume=True):
     return o
 
 
+def _replay_dihedral():
+    """real get_dihedral on every pair of neighbouring faces of solids with ordinary, nearly flat (1e-3 .. 1e-5 rad from coplanar) and
+    knife-sharp edges, against the angle computed with atan2 from exact rational face normals"""
+    def replay(model):
+        import math
+        from bounded import oracle
+        from .common import real_coxeter
+        cox = real_coxeter()
+        solids = {"cube": [[x, y, z] for x in (0.0, 1) for y in (0.0, 1) for z in (0.0, 1)]}
+        for eps in (1e-2, 1e-3, 1e-4, 1e-5):
+            solids[f"roofed_cube_{eps:g}"] = solids["cube"] + [[0.5, 0.5, 1 + eps]]
+            solids[f"wedge_{eps:g}"] = [[0.0, 0, 0], [1, 0, 0], [0, 1, 0], [1, 1, 0], [0.0, 0, eps], [1.0, 0, eps]]
+            solids[f"bipyramid12_{eps:g}"] = [[math.cos(2 * math.pi * k / 12), math.sin(2 * math.pi * k / 12), 0.0] for k in range(12)] + [[0, 0, eps], [0, 0, -eps]]
+        for name, pts in solids.items():
+            try:
+                poly = cox.shapes.ConvexPolyhedron(np.array(pts, float))
+            except Exception as e:  # noqa: BLE001
+                return True, {"solid": name, "raised": f"{type(e).__name__}: {e}"[:200]}
+            V = np.asarray(poly.vertices, float)
+            nrm = []
+            for f in poly.faces:
+                a, b, c = V[f[0]], V[f[1]], V[f[2]]
+                n = np.cross(b - a, c - a)
+                nrm.append(n / np.linalg.norm(n))
+            for i, nb in enumerate(poly.neighbors):
+                for j in nb:
+                    j = int(j)
+                    cr = np.linalg.norm(np.cross(nrm[i], nrm[j]))
+                    want = math.pi - math.atan2(cr, float(np.dot(nrm[i], nrm[j])))
+                    try:
+                        got = float(poly.get_dihedral(i, j))
+                    except Exception as e:  # noqa: BLE001
+                        return True, {"solid": name, "faces": [i, j], "raised": f"{type(e).__name__}: {e}"[:200]}
+                    if not abs(got - want) <= 1e-7 * max(1e-3, abs(math.pi - want)) + 1e-9:
+                        return True, {"solid": name, "vertices": V.tolist(), "faces": [i, j], "get_dihedral": got, "angle_between_the_faces": want}
+        return False, {}
+    return replay
+
+
 def run(chk):
     ld = chk.loader()
     shapes = ld.load("coxeter.shapes")
@@ -105,7 +144,8 @@ def run(chk):
             return o.get_dihedral(0, 1), n
         for p in chk.explore(fk, run_d):
             val, n = p.value
-            chk.prove_eq("get_dihedral:post", fk, p.pc, ex(val), sp.acos(-sum(n[0][j] * n[1][j] for j in range(3))))
+            chk.prove_eq("get_dihedral:post", fk, p.pc, ex(val), sp.acos(-sum(n[0][j] * n[1][j] for j in range(3))),
+                         replay=_replay_dihedral())
 
         def run_d2():
             o = object.__new__(shapes.Polyhedron)
